@@ -274,6 +274,7 @@ pub fn record(corpus_dir: &str, patterns_file: &str, mode: &str, per_program: us
                     discarded += 1;
                     continue;
                 }
+                let via_dir = i % 2 == 0 && n <= 1200;
                 let mut drecs = vec![];
                 let mut interesting = false;
                 for (di, d) in dets.iter().enumerate() {
@@ -281,7 +282,8 @@ pub fn record(corpus_dir: &str, patterns_file: &str, mode: &str, per_program: us
                         Some(f) => f,
                         None => continue,
                     };
-                    match d.run(&text) {
+                    // every other layout goes through the entry point a user runs (analyze_dir on a directory holding the file)
+                    match d.run_entry(&text, via_dir) {
                         Ok(rep) => {
                             let rep: Vec<i32> = rep.into_iter().collect();
                             if !fl.is_empty() || !rep.is_empty() {
@@ -297,7 +299,8 @@ pub fn record(corpus_dir: &str, patterns_file: &str, mode: &str, per_program: us
                     out.nontrivial += 1;
                 }
                 let inj = gaps.iter().enumerate().all(|(j, g)| j == 0 || j == n || g.iter().map(|c| atom_lf(*c)).sum::<usize>() >= 1);
-                trace.push(&json!({"k": "layout", "src": name, "variant": vname, "n": n, "inj": inj, "gaps": gaps, "inner": inner, "dets": drecs}));
+                trace.push(&json!({"k": "layout", "src": name, "variant": vname, "n": n, "inj": inj, "gaps": gaps, "inner": inner, "dets": drecs,
+                                   "entry": if via_dir { "dir" } else { "file" }}));
                 texts.push(&json!({"src": name, "variant": vname, "text": text, "canon": canon}));
                 // constructs that span several lines in this layout: the reported lines must still be lines on which
                 // a matching construct BEGINS (Patterns.tla on the projected tree of the re-laid-out text)
@@ -363,7 +366,8 @@ pub fn replay_case(case: &Value, trace: &mut NdjsonWriter, out: &mut Outcome) {
         }
     };
     out.evaluations += 1;
-    match (d.run(canon), d.run(text)) {
+    let via_dir = case["entry"].as_str() == Some("dir");
+    match (d.run(canon), d.run_entry(text, via_dir)) {
         (Ok(f), Ok(rep)) => {
             let f: Vec<i32> = f.into_iter().collect();
             let rep: Vec<i32> = rep.into_iter().collect();
